@@ -575,18 +575,18 @@ Section Level.
         end
     | _ => []
     end.
-  Definition item_conf (inside : bool) (d : ditem) : bool :=
+  Definition item_conf (d : ditem) : bool :=
     match d with
     | DAttr _ _ => true
     | DBlock t ls body =>
         negb (str_eqb t s_dynamic) &&
         match afind t subsc with
-        | Some (n, f) => if lenZ ls =? n then f inside body else true
+        | Some (n, f) => if lenZ ls =? n then f body else true
         | None => true
         end
     | DDynamic t _ _ les content =>
         match afind t subsc with
-        | Some (n, f) => (lenZ les =? n) && f true content
+        | Some (n, f) => (lenZ les =? n) && f content
         | None => false
         end
     | DDynBad _ => false
@@ -597,13 +597,13 @@ Section Level.
     forall b fctx st,
       ctx_equiv fctx (env_of st ++ c) ->
       clean (unroll_items c (env_of st) b) = true ->
-      conforms (snd p) (nonempty st) b = true ->
+      conforms (snd p) b = true ->
       observe_x (snd p) rho (XE (mkEB b fctx (iter_of st) [] [] [])) =
       observe_u (snd p) rho (unroll_items c (env_of st) b).
 
   Lemma dyn_elems st fctx b0 t iname les content p :
     ctx_equiv fctx (env_of st ++ c) ->
-    lk t blocks = Some p -> (lenZ les =? snd (fst p)) = true -> conforms (snd p) true content = true ->
+    lk t blocks = Some p -> (lenZ les =? snd (fst p)) = true -> conforms (snd p) content = true ->
     forall els,
       forallb clean_item (flat_map (dyn_elem c (env_of st) t iname les content) els) = true ->
       let R := xres_concat (map (fun kv => new_block (mkEB b0 fctx (iter_of st) [] [] []) t les content
@@ -648,7 +648,7 @@ Section Level.
     let ext := extend_schema eb s1 in
     ctx_equiv fctx (env_of st ++ c) ->
     forallb clean_item (unroll_item c (env_of st) d) = true ->
-    item_conf (nonempty st) d = true ->
+    item_conf d = true ->
     map obsx (if native_block_ok ext d then fst (fst (expand_block1 eb s1 false d)) else []) =
       flat_map obsu (unroll_item c (env_of st) d)
     /\ native_label_err ext d || native_extra_err ext d
@@ -778,30 +778,29 @@ Lemma observe_u_Sch attrs blocks rho u :
         (u_attrs rho attrs u) (flat_map (obsu blocks rho) u) [] false false.
 Proof. reflexivity. Qed.
 
-Lemma conforms_Sch attrs blocks inside b :
-  conforms (Sch attrs blocks) inside b = types_ok blocks && forallb (item_conf blocks inside) b.
+Lemma conforms_Sch attrs blocks b :
+  conforms (Sch attrs blocks) b = types_ok blocks && forallb (item_conf blocks) b.
 Proof. reflexivity. Qed.
 
 Lemma expand_unroll_gen S : forall b fctx st c rho,
   ctx_equiv fctx (env_of st ++ c) ->
   clean (unroll_items c (env_of st) b) = true ->
-  conforms S (nonempty st) b = true ->
+  conforms S b = true ->
   observe_x S rho (XE (mkEB b fctx (iter_of st) [] [] [])) =
   observe_u S rho (unroll_items c (env_of st) b).
 Proof.
   induction S as [|attrs blocks IHS] using sch_ind'; intros b fctx st c rho H Hclean Hconf.
   - (* JustAttributes *)
-    cbn [conforms] in Hconf. apply andb_true_iff in Hconf as [Hin Hnd].
-    destruct st as [|b0 r]; [|discriminate Hin].
-    cbn [observe_x observe_u xb_just_attributes eb_just_attributes native_just eb_orig
-         xb_marks xb_unknown eb_marks iter_of env_of map].
-    rewrite (just_attrs_agree c [] rho b Hnd), (just_err_agree c [] b Hnd).
-    rewrite !map_map. reflexivity.
+    cbn [conforms] in Hconf.
+    cbn [observe_x observe_u xb_just_attributes xb_marks xb_unknown eb_marks].
+    unfold eb_just_attributes. cbn [eb_orig eb_hblocks existsb negb].
+    rewrite prepared_values, (just_attrs_agree c (env_of st) rho b Hconf), (just_err_agree c (env_of st) b Hconf).
+    f_equal. apply existsb_ext_in. intros d _. destruct d as [n e|t ls body|t fe it les content|[t|]]; reflexivity.
   - (* Content *)
     rewrite conforms_Sch in Hconf. apply andb_true_iff in Hconf as [Htypes Hitems].
     rewrite observe_x_Sch, observe_u_Sch. cbv zeta. cbn [xb_content xb_marks xb_unknown eb_marks].
     assert (Hit : forall d, In d b ->
-              forallb clean_item (unroll_item c (env_of st) d) = true /\ item_conf blocks (nonempty st) d = true).
+              forallb clean_item (unroll_item c (env_of st) d) = true /\ item_conf blocks d = true).
     { intros d Hd. split.
       - unfold clean, unroll_items in Hclean. rewrite forallb_flat_map in Hclean.
         rewrite forallb_forall in Hclean. apply Hclean, Hd.
@@ -844,7 +843,7 @@ Qed.
    values and diagnostics, the same blocks (type, labels) in the same order, recursively. *)
 Theorem expand_equals_unroll S b c rho :
   clean (unroll b c) = true ->
-  conforms S false b = true ->
+  conforms S b = true ->
   observe_x S rho (Expand b c) = observe_u S rho (unroll b c).
 Proof.
   intros Hclean Hconf.
@@ -867,7 +866,7 @@ Section Decode.
 
   Corollary expand_decode_equals_unroll_decode s b c rho :
     clean (unroll b c) = true ->
-    conforms (schema_of s) false b = true ->
+    conforms (schema_of s) b = true ->
     decode s (inl (Expand b c)) rho = decode s (inr (unroll b c)) rho.
   Proof.
     intros Hclean Hconf. apply decode_respects_content. apply expand_equals_unroll; assumption.
